@@ -13,7 +13,7 @@ import (
 
 // alphabets of the parser checks (DESIGN.md §2 E1)
 var (
-	sigmaFull = []string{"a", "b", "x=1", "x=", "1", "é", "'q'", `"d"`, `"$v"`, `\e`, "$v", "${v}", "${v:-w}", "$(c)", "`c`", "$((1))", "2>",
+	sigmaFull = []string{"a", "b", "x=1", "x=", "1", "é", "'q'", `"d"`, `"$v"`, `\e`, "$v", "${v}", "${v:-w}", "$(c)", "`c`", "$((1))", "2>", "a$",
 		"!", "{", "}", "for", "in", "do", "done", "case", "esac", "if", "then", "elif", "else", "fi", "while", "until",
 		";", "&", "|", "&&", "||", ";;", "(", ")", "<", ">", ">>", ">|", "<&", ">&", "<>", "<<E", "<<-E", "((1))", "\n", "#c",
 		"'q", `"q`, "${v", "$(", "`", "$(("}
